@@ -96,20 +96,26 @@ def e1_roots(tier):
                         c["monitors"] = ["models"]
                         c["explore"] = 1 if (tier == "thorough" and n == 1) else 0
                         out.append(c)
+    from .. import cover
+    out += cover.roots_for(tier, monitors=["models"])
     return out
 
 
 def e1_oracle(rec, table=None):
     viol = []
     kmax = 1.0
+    smax = 1.0
     nops = 0
     for i, m in enumerate(rec.notes.get("models", [])):
         if m["op"] in ("init", "reset_models"):
-            kmax, nops = 1.0, 0
+            kmax, nops, smax = 1.0, 0, 1.0
         kmax = max(kmax, m["cond"])
+        # the magnitude of the data the current models were built from: a barrier value (2^100) that has left
+        # the interpolation set since the last rebuild still determines the size of the rounding errors
+        smax = max(smax, m["scale"])
         nops += 1
         # rounding errors accumulate over the operations since the last (re)build of the models
-        tol = 1e3 * EPS * kmax * nops * m["scale"]
+        tol = 1e3 * EPS * kmax * nops * smax
         if not (m["res"] <= tol):
             viol.append({"key": f"run:interpolation-error:{m['op']}",
                          "what": f"real run: after {m['op']} #{i} a model misses a recorded value by {m['res']:.3g} "
